@@ -487,7 +487,10 @@ impl Controller for Bbr {
         if self.mode == Mode::ProbeRtt {
             return self.get_probe_rtt_cwnd();
         } else if self.recovery_state.in_recovery() && self.mode != Mode::Startup {
-            return self.cwnd.min(self.recovery_window);
+            // `recovery_window` is still zero between the loss that starts a recovery episode and
+            // the next batch of acknowledgements, and it does not follow MTU increases: never
+            // report less than the minimum window
+            return self.cwnd.min(self.recovery_window).max(self.min_cwnd);
         }
         self.cwnd
     }
